@@ -32,6 +32,10 @@ CHECKS = {
          "All 256/65536 integer values and a dense boundary alphabet of i32/f32 values are converted through the real dynamic entry point for every type pair; monotonicity, endpoints, saturation, round trips and the accept/reject matrix are judged on the whole enumerated domain.",
          "i32/f32 sources are not enumerated completely (2^32 values): power-of-two neighbourhoods, a stride sweep and per-binade grids are the stated alphabet.",
          "DESIGN.md §4 C17"),
+ "C07": ("bounded-exhaustive metamorphic enumeration: every alpha mask over {0,max}^n (and {0,mid,max}^n) x geometries x algorithms x alpha pixel types x back-ends on the real code",
+         "For every 1-D geometry up to N x crops x 14 algorithms x 6 alpha pixel types x back-ends x both orientations ALL alpha masks are laid out as the lines of one image and resized under four different colour assignments for the transparent pixels; results must be identical, alpha 0 in the output must carry colour 0, the alpha channel must equal the one-channel resize of the alpha plane and an opaque source must give the use_alpha(false) result. 2-D shapes incl. SuperSampling with all masks (<= 8 pixels) or 48 structured masks.",
+         "N = 6 / 10; geometries where the destination equals an integer crop are exact copies (C12) and excluded.",
+         "DESIGN.md §4 C07"),
  "C10": ("exact invariant check on the implementation's own integer coefficient tables for every geometry (model level, decides all component values), bound to the code by bounded-exhaustive direct resizes of uniform images",
          "Model level: for every geometry of the model space (full square of sizes up to S, boundary sizes up to 65537 against every small size, CROP1, 7 filters, adaptive on/off) the i16/i32 tables the real normalisers produce are read through the hook and Σk is checked exactly against 2^p, which decides the property for every one of the 256/65536 values. Direct: every 1-D geometry up to N x crops x 14 algorithms x 13 types x back-ends x 2 orientations on images whose line r carries value r (all 256 8-bit values), plus 2-D shapes with SuperSampling; alpha off and alpha at its maximum.",
          "Geometry bounded (S=40/160, N=12/32, extreme ratios from a list); float types only on the listed values; windows with zero total weight have no defined value and are excluded.",
@@ -40,6 +44,10 @@ CHECKS = {
          "Every source size up to SxS with one destination axis varying up to D, against the full CROP1 x CROP1 alphabet (incl. sub-pixel boxes flush against the right/bottom edge down to n*2^-52 wide), the full size product up to F^4 with all 13 pixel types, and huge ratios; each through the dynamic entry (ImageRef, CroppedImage) and the typed entry (TypedImageRef's specialised row stepping, TypedCroppedImage's generic one), buffers ending at guard pages, cases isolated in child processes so a SIGSEGV is attributed to its case. Every destination pixel must be a byte copy of the source pixel at the documented index.",
          "S=8/16, D=12/20, F=4/5; within (n_out+4)*2^-51*extent of an integer either neighbour is accepted.",
          "DESIGN.md §4 C11"),
+ "C12": ("bounded-exhaustive enumeration of image sizes x every integer sub-rectangle x 36 algorithms x alpha on/off x pixel types on the real code; byte-copy and line-by-line differential oracle",
+         "Every image size up to WxW, every integer crop rectangle (all of them for sizes <= 5), all 36 algorithm variants incl. SuperSampling, alpha on and off, 13 pixel types with rotating back-ends, tag and non-premultiplied contents: the destination must be a byte copy of the region. With exactly one matching dimension the result must equal the resize of each line taken alone (no mixing along the matching dimension).",
+         "W = 6 / 9; floats in the one-dimension family within 2 ulps.",
+         "DESIGN.md §4 C12"),
  "C13": ("bounded-exhaustive differential enumeration over the container matrix (11 source kinds x 11 destination kinds, pairwise) x operations x pixel types x back-ends x placements x both entry points in fenced memory, isolated child processes",
          "14 operations x size pairs x 8 placements x 13 pixel types x back-ends are executed through every source and destination container kind and both entry points with buffers that end at a guard page; the destination rectangle must be byte-identical to the ImageRef -> slice baseline (floats included).",
          "Container kinds varied pairwise, typed kinds for 6 of 13 pixel types (compile-time bound); sizes from a fixed list.",
